@@ -100,6 +100,12 @@ func (p *ProofU) reconstructUcommit(pk *gabikeys.PublicKey) (*big.Int, error) {
 	Ucommit.Mul(Ucommit, R0s).Mod(Ucommit, pk.N)
 
 	for i, miUserResponse := range p.MUserResponses {
+		// Random blind attributes have index 1 or higher: R_0 is the base of the secret key, whose
+		// (single) response is SResponse. A second response on R_0 would allow the prover to show
+		// an SResponse for a secret other than the one committed to in U.
+		if i <= 0 || i >= len(pk.R) || miUserResponse == nil {
+			return nil, errors.New("invalid random blind attribute response")
+		}
 		Rimi, err := common.ModPow(pk.R[i], miUserResponse, pk.N)
 		if err != nil {
 			return nil, err
